@@ -550,7 +550,7 @@ def payload_cases(ctx, e, n_gen, n_fuzz):
                     continue                   # the generator left the serializer's domain: not a case
                 if isinstance(b, (bytes, bytearray)):
                     produced.append(bytes(b))
-                    yield ctxvars, bytes(b), "generated"
+                    yield ctxvars, bytes(b), "generated", val
         # payloads of exactly the sizes that select a sub-template / fill a fixed-size template
         se = _se()
         sizes = set()
@@ -563,19 +563,19 @@ def payload_cases(ctx, e, n_gen, n_fuzz):
             if isinstance(spec, se.LengthSwitch):
                 sizes |= {k for k in spec._choice_specs if isinstance(k, int)}
         for n in sorted(sizes):
-            yield ctxvars, bytes(n), "sized-zeros"
+            yield ctxvars, bytes(n), "sized-zeros", None
             for _ in range(ctx.pick(3, 40)):
-                yield ctxvars, bytes(rng.randrange(256) for _ in range(n)), "sized-random"
+                yield ctxvars, bytes(rng.randrange(256) for _ in range(n)), "sized-random", None
         for i in range(n_fuzz):
             r = rng.random()
             if produced and r < 0.6:
-                yield ctxvars, mutate(rng, rng.choice(produced)), "mutated"
+                yield ctxvars, mutate(rng, rng.choice(produced)), "mutated", None
             else:
                 n = rng.choice((0, 1, 2, 4, 16, 17, 32, 48, 60, 76, 86, 512, rng.randrange(0, 120)))
                 if rng.random() < 0.3:
-                    yield ctxvars, bytes(n), "zeros"
+                    yield ctxvars, bytes(n), "zeros", None
                 else:
-                    yield ctxvars, bytes(rng.randrange(256) for _ in range(n)), "random"
+                    yield ctxvars, bytes(rng.randrange(256) for _ in range(n)), "random", None
 
 
 def corr_bytes(ctx, reg):
@@ -598,7 +598,7 @@ def corr_bytes(ctx, reg):
         seen = set()
         k_acc = k_all = 0
         try:
-            for ctxvars, payload, origin in payload_cases(ctx, e, n_gen, n_fuzz):
+            for ctxvars, payload, origin, source in payload_cases(ctx, e, n_gen, n_fuzz):
                 sig = (tuple(sorted(ctxvars.items())), payload)
                 if sig in seen:
                     continue
@@ -613,7 +613,7 @@ def corr_bytes(ctx, reg):
                     accepted += 1
                     k_acc += 1
                     if st == "bad":
-                        _report(res, counts, {"kind": "bytes", "class": classify_bytes(keytxt, bad[0], ser, block, payload), "clause": bad[0],
+                        _report(res, counts, {"kind": "bytes", "class": classify_bytes(keytxt, bad[0], ser, block, payload, source), "clause": bad[0],
                                               "detail": bad[1], "key": keytxt, "ctx": ctxvars, "pod": pod,
                                               "payload": payload.hex(), "origin": origin})
                 if origin == "generated" and len(samples) < 6 and len(payload) < 40:
@@ -628,10 +628,10 @@ def corr_bytes(ctx, reg):
     return res
 
 
-def classify_bytes(key, clause, ser=None, block=None, payload=None):
-    """stable defect class of a byte-payload failure; one root-cause rule, else the failed clause"""
+def classify_bytes(key, clause, ser=None, block=None, payload=None, source=None):
+    """stable defect class of a byte-payload failure; two root-cause rules, else the failed clause"""
     try:
-        v = _force(ser.deserialize(block, payload, pod=False))
+        v = source if isinstance(source, dict) else _force(ser.deserialize(block, payload, pod=False))
         if isinstance(v, dict) and "NameValue" in v and not v["NameValue"] and int(v.get("Flags", 0)) & 0x100:
             return "compressed-empty-namevalue-terminator"
         te = v.get("TextureEntry") if isinstance(v, dict) else v
@@ -689,6 +689,14 @@ def correspond(ctx):
     if corpus_res:
         out.append(corpus_res)
     out += [corr_ints(ctx, reg), corr_bytes(ctx, reg), corr_dates(ctx, reg)]
+    summary = {}
+    for r in out:
+        for v in r.impl_violations:
+            k = "%s @ %s" % (v.get("class"), v.get("key"))
+            summary[k] = summary.get(k, 0) + 1
+    if summary:
+        ctx.notes.append("impl-level failures by defect class (before known-finding matching): " +
+                         "; ".join("%s x%d" % kv for kv in sorted(summary.items())))
     return out
 
 
